@@ -10,6 +10,11 @@ A family / call is plain JSON data (so that replays and the corpus are self-cont
   registered with exclusive=True (no overload carries the key -> all are); overloads are REGISTERED in the
   order of "funs" as well, so permuting "funs" permutes enumeration and registration order together
   a parameter is [name, kind, default] or [name, kind, default, alias] (explicit alias=...)
+  a layer may be a MultiContext / LinkedContext: "shape": "plain"|"multi"|"linked"|"linked-multi" and
+  "members": [[fid, ...], ...] (which member context holds which overloads, in member order)
+  a fun may carry "history": [op, ...]: what else happened to the decorated python callable / to definitions
+  derived from it through the public FunctionDefinition API before ("pre_*") and after ("post_*") the
+  definition under test was derived - none of it may change how that definition resolves
   fun    = {"fid": int, "pos": [[name, kind, default], ...], "star": [name, kind]|None,
             "kwonly": [[name, kind, default], ...], "starstar": [name, kind]|None,
             "kind": "function"|"method"|"extension", "nokw": bool}
@@ -209,8 +214,44 @@ def kind_type(kind):
 _glob = {"INST": INST}
 
 
-def make_function(fun):
-    """exec() a python function with the requested signature; the payload returns what it received"""
+HISTORY_OPS = ["pre_python", "pre_none", "pre_strip", "pre_insert", "post_strip", "post_insert", "post_python", "post_clone"]
+
+
+def _derive(fn, convention):
+    return specs.get_function_definition(fn, name="f", convention=convention)
+
+
+def _history_op(op, fn, fd, made):
+    """one use of the public API on the same decorated callable (or on a definition derived from it)"""
+    camel_c = conventions.CamelCaseConvention()
+    kind = op.split("_", 1)[1]
+    base = fd if op.startswith("post") else None
+    if kind == "python":
+        made.append(_derive(fn, conventions.PythonConvention()))
+    elif kind == "none":
+        made.append(_derive(fn, None))
+    elif kind == "strip":
+        d = base if base is not None else _derive(fn, camel_c)
+        made.append(d)
+        made.append(d.strip_hidden_parameters())
+    elif kind == "insert":
+        d = (base if base is not None else _derive(fn, camel_c)).clone()
+        d.insert_parameter(specs.ParameterDefinition("ins_", yaqltypes.PythonType(object, True), position=0, default=None))
+        made.append(d)
+    elif kind == "clone":
+        d = base.clone()
+        for q in d.parameters.values():
+            q.alias = "moved"
+            if q.position is not None:
+                q.position += 3
+        made.append(d)
+    else:
+        raise ValueError(op)
+
+
+def make_function(fun, census=None, history=True):
+    """exec() a python function with the requested signature; the payload returns what it received.
+    census: list collecting every FunctionDefinition that came into being (for the identity census)."""
     parts, names = [], []
     for name, kind, default in [q[:3] for q in fun["pos"]]:
         parts.append(name if default is None else "%s=%s" % (name, _default_src(default)))
@@ -247,7 +288,36 @@ def make_function(fun):
         specs.extension_method(fn)
     if fun["nokw"]:
         specs.no_kwargs(fn)
-    return specs.get_function_definition(fn, name="f", convention=conventions.CamelCaseConvention())
+    ops = fun.get("history", []) if history else []
+    made = []
+    for op in ops:
+        if op.startswith("pre"):
+            _history_op(op, fn, None, made)
+    fd = _derive(fn, conventions.CamelCaseConvention())
+    for op in ops:
+        if op.startswith("post"):
+            _history_op(op, fn, fd, made)
+    if census is not None:
+        census.append(fd)
+        census.extend(made)
+        if hasattr(fn, "__yaql_function__"):
+            census.append(fn.__yaql_function__)
+    return fd
+
+
+def shared_parameters(census):
+    """identity census: ParameterDefinition objects that belong to two different FunctionDefinitions"""
+    owner, out = {}, []
+    seen_fd = set()
+    for fd in census:
+        if id(fd) in seen_fd:
+            continue
+        seen_fd.add(id(fd))
+        for key, q in fd.parameters.items():
+            if id(q) in owner and owner[id(q)] is not fd:
+                out.append(q.name)
+            owner[id(q)] = fd
+    return out
 
 
 def _default_src(v):
@@ -265,6 +335,18 @@ class OrderedContext(contexts.Context):
 
     def __init__(self, parent_context=None, data=utils.NO_VALUE, convention=None):
         super().__init__(parent_context, data, convention)
+        self.order = []
+
+    def get_functions(self, name, predicate=None, use_convention=False):
+        fs, excl = super().get_functions(name, predicate, use_convention)
+        return [f for f in self.order if f in fs] + [f for f in fs if f not in self.order], excl
+
+
+class OrderedMulti(contexts.MultiContext):
+    """MultiContext whose get_functions returns the union as an ORDERED LIST fixed by the harness"""
+
+    def __init__(self, context_list, convention=None):
+        super().__init__(context_list, convention)
         self.order = []
 
     def get_functions(self, name, predicate=None, use_convention=False):
@@ -296,7 +378,20 @@ def _probe_function(i):
     return _probe["table"][i]
 
 
-def build_chain(family):
+def layer_members(layer):
+    """[[fun, ...], ...]: the overloads of each member context of the layer"""
+    shape = layer.get("shape", "plain")
+    if shape in ("multi", "linked-multi") and layer.get("members"):
+        by = {f["fid"]: f for f in layer["funs"]}
+        ms = [[by[i] for i in m if i in by] for m in layer["members"]]
+        rest = [f for f in layer["funs"] if not any(f in m for m in ms)]
+        if rest:
+            ms[0] = ms[0] + rest
+        return ms
+    return [list(layer["funs"])]
+
+
+def build_chain(family, census=None, history=True):
     """-> (innermost context, {fid: FunctionDefinition})"""
     from yaql.standard_library import system
     ctx, fds = None, {}
@@ -304,18 +399,46 @@ def build_chain(family):
     ctx.register_function(_probe_function)
     ctx.register_function(system.op_dot)
     for layer in reversed(family["chain"]):
-        ctx = OrderedContext(ctx)
+        shape = layer.get("shape", "plain")
+        parent = ctx
+        members = layer_members(layer)
         marked = any(f.get("xreg") for f in layer["funs"])
-        for fun in layer["funs"]:
+        made = {}
+        for fun in layer["funs"]:                       # derived (and registered below) in the order of "funs"
             try:
-                fd = make_function(fun)
-                ctx.register_function(fd, exclusive=bool(layer["excl"] and (fun.get("xreg") or not marked)))
+                made[fun["fid"]] = make_function(fun, census, history)
             except (exceptions.InvalidMethodException, SyntaxError) as e:
                 raise BadFamily(repr(e))
-            ctx.order.append(fd)
-            fds[fun["fid"]] = fd
+        mctx = []
+        for i, mfuns in enumerate(members):
+            if shape in ("linked", "linked-multi"):
+                m = OrderedContext(None)                # the linked context brings no parent of its own
+            else:
+                m = OrderedContext(parent if (i == 0 or shape == "plain") else None)
+            mctx.append((m, mfuns))
+        where = {f["fid"]: m for m, mfuns in mctx for f in mfuns}
+        for fun in layer["funs"]:
+            m = where[fun["fid"]]
+            try:
+                m.register_function(made[fun["fid"]], exclusive=bool(layer["excl"] and (fun.get("xreg") or not marked)))
+            except exceptions.InvalidMethodException as e:
+                raise BadFamily(repr(e))
+            m.order.append(made[fun["fid"]])
+            fds[fun["fid"]] = made[fun["fid"]]
         if layer["excl"] and not layer["funs"]:
-            ctx._exclusive_funcs.add("f")
+            mctx[0][0]._exclusive_funcs.add("f")
+        order = [made[f["fid"]] for f in layer["funs"]]
+        if shape == "plain":
+            ctx = mctx[0][0]
+        elif shape == "multi":
+            ctx = OrderedMulti([m for m, _ in mctx])
+            ctx.order = order
+        elif shape == "linked":
+            ctx = contexts.LinkedContext(parent, mctx[0][0])
+        else:
+            inner = OrderedMulti([m for m, _ in mctx])
+            inner.order = order
+            ctx = contexts.LinkedContext(parent, inner)
     return ctx, fds
 
 
@@ -630,6 +753,26 @@ def gen_fun(rng, fid, shape):
     return {"fid": fid, "pos": pos, "star": star, "kwonly": kwonly, "starstar": starstar, "kind": kind, "nokw": nokw}
 
 
+def add_shapes(rng, chain, p_multi=0.3, p_hist=0.25):
+    """some layers become MultiContexts / LinkedContexts over member contexts; some overloads get a
+    registration history (the same callable derived under another convention, derived definitions modified)"""
+    for layer in chain:
+        r = rng.random()
+        if r < p_multi and len(layer["funs"]) >= 2:
+            k = rng.choice([2, 2, 3])
+            members = [[] for _ in range(k)]
+            for f in layer["funs"]:
+                members[rng.randrange(k)].append(f["fid"])
+            members = [m for m in members if m] or [[f["fid"] for f in layer["funs"]]]
+            layer["shape"] = "multi" if rng.random() < 0.75 else "linked-multi"
+            layer["members"] = members
+        elif r < p_multi + 0.1:
+            layer["shape"] = "linked"
+        for f in layer["funs"]:
+            if rng.random() < p_hist:
+                f["history"] = rng.sample(HISTORY_OPS, rng.choice([1, 1, 2, 3]))
+
+
 def mark_exclusive(rng, chain):
     """an exclusive layer: a random non-empty subset of its overloads is registered with exclusive=True"""
     for layer in chain:
@@ -660,6 +803,7 @@ def gen_family(rng):
             fid += 1
         chain.append({"excl": rng.random() < 0.2, "funs": funs})
     mark_exclusive(rng, chain)
+    add_shapes(rng, chain)
     fam = {"chain": chain}
     fam["shape_lazy"] = sorted(shape["lazy"])
     return fam
@@ -790,6 +934,10 @@ def family_features(family, call, obs):
         feats.add("exclusive")
     if len(family["chain"]) > 1:
         feats.add("layers")
+    if any(l.get("shape", "plain") != "plain" for l in family["chain"]):
+        feats.add("multi/linked")
+    if any(f.get("history") for f in funs):
+        feats.add("history")
     if call["recv"] is not None:
         feats.add("receiver")
     if any(a[0] == "skip" for a in call["args"]):
@@ -1077,6 +1225,7 @@ def gen_family_dense(rng):
             fid += 1
         chain.append({"excl": rng.random() < (0.3 if li < nlayers - 1 else 0.1), "funs": funs})
     mark_exclusive(rng, chain)
+    add_shapes(rng, chain, p_multi=0.4, p_hist=0.2)
     return {"chain": chain, "kwname": kwname}
 
 
@@ -1103,40 +1252,74 @@ def gen_call_dense(rng, family):
 
 
 def shuffled(rng, family):
-    fam = {"chain": [{"excl": l["excl"], "funs": list(l["funs"])} for l in family["chain"]]}
+    fam = {"chain": [dict(l, funs=list(l["funs"]), members=list(l.get("members", []))) for l in family["chain"]]}
     for l in fam["chain"]:
         rng.shuffle(l["funs"])
+        rng.shuffle(l["members"])
     return fam
 
 
 def layer_orders(rng, family, limit=50):
-    """enumeration orders of the whole family: exhaustive per layer when <= 5 candidates, else `limit` random;
-    the product over layers is capped at 720 (random sample beyond)"""
+    """orders of the whole family: per layer every permutation of its overloads (enumeration AND registration
+    order; exhaustive when <= 5 candidates, else `limit` random) combined with every order of the member contexts
+    of a MultiContext layer; the product over layers is capped at 720 (random sample beyond)"""
     per_layer = []
     for l in family["chain"]:
         if len(l["funs"]) <= 5:
-            per_layer.append([list(p) for p in itertools.permutations(l["funs"])])
+            fperms = [list(p) for p in itertools.permutations(l["funs"])]
         else:
-            per_layer.append([rng.sample(l["funs"], len(l["funs"])) for _ in range(limit)])
+            fperms = [rng.sample(l["funs"], len(l["funs"])) for _ in range(limit)]
+        mperms = [list(p) for p in itertools.permutations(l.get("members", []))] or [[]]
+        opts = [(f, m) for f in fperms for m in mperms]
+        if len(opts) > 240:
+            opts = [(fperms[0], m) for m in mperms] + rng.sample(opts, 200)
+        per_layer.append(opts)
     total = 1
     for p in per_layer:
         total *= len(p)
     if total <= 720:
         combos = itertools.product(*per_layer)
     else:
-        combos = (tuple(rng.choice(p) for p in per_layer) for _ in range(300))
+        combos = itertools.chain(
+            (tuple(rng.choice(p) for p in per_layer) for _ in range(300)),
+            # every member order of every layer at least once
+            (tuple((p[0][0], m) if j == i else p[0] for j, p in enumerate(per_layer))
+             for i, l in enumerate(family["chain"]) for m in [list(q) for q in itertools.permutations(l.get("members", []))]))
     for combo in combos:
-        yield {"chain": [{"excl": l["excl"], "funs": list(fs)} for l, fs in zip(family["chain"], combo)]}
+        yield {"chain": [dict(l, funs=list(fs), members=list(ms)) for l, (fs, ms) in zip(family["chain"], combo)]}
+
+
+def history_variants(family):
+    """the same family with other registration histories: none at all, and the heaviest one everywhere"""
+    def with_hist(h):
+        return {"chain": [dict(l, funs=[dict(f, history=list(h(f))) for f in l["funs"]]) for l in family["chain"]]}
+    yield "no history", with_hist(lambda f: [])
+    yield "another convention first, derived definitions modified", with_hist(
+        lambda f: ["pre_python", "pre_strip", "post_strip", "post_insert", "post_clone"])
 
 
 def order_outcomes(rng, family, call):
-    """-> {canonical outcome: one order (list of fid lists) producing it}"""
+    """-> {canonical outcome: one order / registration history producing it}"""
     seen = {}
-    for fam in layer_orders(rng, family):
-        obs, log = run_call(fam, call)
-        key = repr((obs, log))
+
+    def note(fam, label):
+        census = []
+        try:
+            ctx, _ = build_chain(fam, census)
+        except BadFamily:
+            return
+        obs, log = run_call(fam, call, ctx)
+        shared = shared_parameters(census)
+        key = repr((obs, log, bool(shared)))
         if key not in seen:
-            seen[key] = {"order": [[f["fid"] for f in l["funs"]] for l in fam["chain"]], "outcome": obs, "log": log}
+            seen[key] = {"order": [[f["fid"] for f in l["funs"]] for l in fam["chain"]],
+                         "members": [l.get("members") for l in fam["chain"]], "history": label,
+                         "outcome": obs, "log": log, "shared_parameter_objects": shared[:4]}
+
+    for fam in layer_orders(rng, family):
+        note(fam, "as generated")
+    for label, fam in history_variants(family):
+        note(fam, label)
     return seen
 
 
@@ -1146,8 +1329,12 @@ def correspond(run, pairs, what_violation, what_prop, judge=None):
     on the same input and reports disagreements."""
     cases, meta = [], []
     for family, call in pairs:
+        census = []
         try:
-            ctx, fds = build_chain(family)
+            ctx, fds = build_chain(family, census)
+            if any(f.get("history") for l in family["chain"] for f in l["funs"]):
+                # the model is fed with what the definitions are on their own (no history)
+                fds = {f["fid"]: make_function(f, history=False) for l in family["chain"] for f in l["funs"]}
         except BadFamily:
             run.cov["skipped"] += 1
             continue
